@@ -326,16 +326,21 @@ async fn current_manifest_path(
         // If the first valid manifest we see if V1, assume for now that we are
         // using V1 naming scheme for all manifests. Since we are listing the
         // directory anyways, we will assert there aren't any V2 manifests.
-        (Some((scheme, meta)), _) => {
-            let mut current_version = scheme
+        (Some((first_scheme, meta)), _) => {
+            let mut current_version = first_scheme
                 .parse_version(meta.location.filename().unwrap())
                 .unwrap();
             let mut current_meta = meta;
 
             while let Some((scheme, meta)) = valid_manifests.next().await.transpose()? {
-                if matches!(scheme, ManifestNamingScheme::V2) {
+                // This branch also serves V2 directories on stores whose listing is not
+                // lexically ordered: only a scheme different from the first one is an error.
+                if scheme != first_scheme {
                     return Err(Error::Internal {
-                        message: "Found V2 manifest in a V1 manifest directory".to_string(),
+                        message: format!(
+                            "Found {:?} manifest in a {:?} manifest directory",
+                            scheme, first_scheme
+                        ),
                         location: location!(),
                     });
                 }
@@ -351,7 +356,7 @@ async fn current_manifest_path(
                 version: current_version,
                 path: current_meta.location,
                 size: Some(current_meta.size),
-                naming_scheme: scheme,
+                naming_scheme: first_scheme,
                 e_tag: current_meta.e_tag,
             })
         }
